@@ -268,6 +268,11 @@ def run_route_reusing(route, e, v, steps, p):
         for st in steps:
             if st[0] == "obj":
                 outcome(lambda: query(sm, E, box["o"], v, st[1]))
+            elif st[0] == "comp":
+                # one single component is requested first (a Differential must not conclude that it now knows all of them)
+                w = v[0] if isinstance(v, list) else v
+                outcome(lambda: box["o"].component_at(w, st[1]) if hasattr(box["o"], "component_at") else box["o"].at(st[1]))
+                outcome(lambda: box["o"].component(w).as_expression() if hasattr(box["o"], "component") else 0)
             else:
                 run_route(st[1], e, v, st[2])
         return query(sm, E, box["o"], v, p)
